@@ -181,6 +181,21 @@ func genFileSet(r *rand.Rand, idx int) *fileSet {
 				pts = append(pts, p)
 			}
 		}
+		// nested time ranges inside one file: series k also has a row (k+1)*40 ms before and
+		// after the common timestamp (direction alternating from file to file), so that in
+		// series-id order some series' range contains the ranges of all series before it
+		for k, se := range u.Series {
+			w := int64(k+1) * 40_000_000
+			if i%2 == 1 {
+				w = int64(len(u.Series)-k) * 40_000_000
+			}
+			for _, t := range []int64{u.Times[len(u.Times)-1] - w, u.Times[len(u.Times)-1] + w} {
+				if r.IntN(4) != 0 {
+					pts = append(pts, model.Point{Mst: u.Msts[k%len(u.Msts)], Tags: se, T: t,
+						Fields: map[string]model.Value{"fi": kit.Value(r, 'i')}})
+				}
+			}
+		}
 		// a few extra timestamps in the same file so that a series has several rows/segments
 		for k := 0; k < r.IntN(4); k++ {
 			nt += 1_000_000
@@ -509,10 +524,91 @@ func (rn *runner) uncrashed(fs *fileSet, kind string, worker int) int64 {
 			}
 		}
 	}
+	if what, d := windowDiff(s, fs, d0); d != "" {
+		c.Violation("time-bounded-answer-changed-by:"+kind, fmt.Sprintf("file set %d (%s): dump of the time window %s after %s differs from the same window of the dump before: %s", fs.Index, fs.Config, what, kind, d),
+			witness(fs, crashCase{Kind: kind}, map[string]any{"window": what, "diff": d, "files_before": before, "files_after": after}))
+		return 0
+	}
+	c.Count("time-window-dumps-compared", 21)
 	if !changed {
 		return 0
 	}
 	return n1 - n0
+}
+
+// windowDiff reads time windows (the oldest / newest fifth, the middle, the newest and the
+// oldest single timestamp, sixteen tiles of the span) and compares each with the same window
+// cut out of the full dump d0 taken before the reorganisation: the files' time ranges
+// (trailer, meta index, segment ranges) decide which files a bounded read opens, and a
+// full-range dump never consults them.
+func windowDiff(s *proc.Server, fs *fileSet, d0 model.Contents) (string, string) {
+	if len(d0) == 0 {
+		return "", ""
+	}
+	first := true
+	var tmin, tmax int64
+	for k := range d0 {
+		if first || k.T < tmin {
+			tmin = k.T
+		}
+		if first || k.T > tmax {
+			tmax = k.T
+		}
+		first = false
+	}
+	span := tmax - tmin
+	type win struct {
+		name   string
+		lo, hi int64
+	}
+	wins := []win{
+		{"oldest-fifth", tmin, tmin + span/5},
+		{"newest-fifth", tmax - span/5, tmax},
+		{"middle", tmin + 2*span/5, tmin + 3*span/5},
+		{"newest-timestamp", tmax, tmax},
+		{"oldest-timestamp", tmin, tmin},
+	}
+	// every series' oldest and newest timestamp
+	sMin, sMax := map[string]int64{}, map[string]int64{}
+	for k := range d0 {
+		id := k.Mst + "|" + k.Series
+		if v, ok := sMin[id]; !ok || k.T < v {
+			sMin[id] = k.T
+		}
+		if v, ok := sMax[id]; !ok || k.T > v {
+			sMax[id] = k.T
+		}
+	}
+	ids := make([]string, 0, len(sMin))
+	for id := range sMin {
+		ids = append(ids, id)
+	}
+	sort.Strings(ids)
+	for _, id := range ids {
+		wins = append(wins, win{"oldest-of-" + id, sMin[id], sMin[id]}, win{"newest-of-" + id, sMax[id], sMax[id]})
+	}
+	// and sixteen windows tiling the whole span: a file whose recorded range is too narrow
+	// may sit anywhere in it
+	for i := int64(0); i < 16; i++ {
+		wins = append(wins, win{fmt.Sprintf("tile-%d/16", i), tmin + span*i/16, tmin + span*(i+1)/16})
+	}
+	for _, w := range wins {
+		lo, hi := w.lo, w.hi
+		want := model.Contents{}
+		for k, row := range d0 {
+			if k.T >= lo && k.T <= hi {
+				want[k] = row
+			}
+		}
+		got, _, err := kit.Dump(s, db, fs.msts, fs.schema, kit.DumpOpts{TMin: &lo, TMax: &hi})
+		if err != nil {
+			continue
+		}
+		if d := model.Diff(want, got, "", 6); len(d) > 0 {
+			return fmt.Sprintf("%s [%d,%d]", w.name, lo, hi), strings.Join(d, "; ")
+		}
+	}
+	return "", ""
 }
 
 func (rn *runner) crashed(fs *fileSet, cc crashCase, worker, caseNo int) {
